@@ -367,8 +367,9 @@ funcalloc(struct func *f, struct decl *d)
 
 	assert(!d->type->incomplete);
 	calcvla(f, d->type);
-	end = f->end;
+	end = NULL;
 	if (d->type->size) {
+		end = f->end;
 		f->end = f->start;
 		v = mkintconst(d->type->size);
 	} else {
@@ -392,7 +393,8 @@ funcalloc(struct func *f, struct decl *d)
 		v = funcinst(f, IAND, ptrclass, v, mkintconst(-align));
 	}
 	d->value = v;
-	f->end = end;
+	if (end)
+		f->end = end;
 }
 
 static struct value *
